@@ -229,7 +229,7 @@ def add_recipe_scaling_links(
             span_copy = deepcopy(span)
             number = span_copy.find_class("rg-scaled-value")[0]
             number.text = str(servings)
-            link = lxml.html.Element("a", href=href.relative(from_path, scaled_path))
+            link = lxml.html.Element("a", href=href.relative_url(from_path, scaled_path))
             link.text = span_copy.text
             link.extend(span_copy)
             scaling_links.append(link)
@@ -254,7 +254,7 @@ def add_recipe_scaling_links(
     for span in tree.find_class("rg-original-servings"):
         # Wrap original serving count in a link to that number of servings
         link = lxml.html.Element(
-            "a", href=href.relative(from_path, scaled_paths[native_servings])
+            "a", href=href.relative_url(from_path, scaled_paths[native_servings])
         )
         link.text = span.text
         link.extend(span)
